@@ -28,7 +28,7 @@ ASSUMPTIONS = ["a day with valid temperature: daily feed = value present; hourly
                "fractional day counts (DST days, hourly rows) are not judged within 1 day of a threshold: the statement does not say how they round"]
 REQUIRED_REACH = {"dataset.judged": 100, "criterion.judged": 500, "criterion.expected_dq": 60, "criterion.exact_threshold": 10,
                   "warning.condition_generated": 20, "post_init.counters": 100, "class.daily": 40, "class.billing": 10, "class.hourly": 10, "entry.billing_from_series": 12,
-                  "entry.billing_from_series_first_and_last_period_differ": 6, "billing.span_on_a_length_threshold": 6, "billing.day_count_compared": 10, "negative.only_on_incomplete_rows": 1, "entry.billing_class_fed_with_daily_rows": 10, "billing.calendar_month_without_any_reading": 6}
+                  "entry.billing_from_series_first_and_last_period_differ": 6, "billing.span_on_a_length_threshold": 6, "billing.day_count_compared": 10, "negative.only_on_incomplete_rows": 1, "entry.billing_class_fed_with_daily_rows": 10, "billing.period_exactly_on_a_length_limit": 6, "billing.calendar_month_without_any_reading": 6}
 UNIVERSE = {"no_data", "incorrect_number_of_total_days", "too_many_days_with_missing_data", "too_many_days_with_missing_meter_data",
             "too_many_days_with_missing_temperature_data", "missing_monthly_temperature_data", "missing_monthly_meter_data",
             "missing_monthly_ghi_data", "negative_meter_values"}
@@ -335,6 +335,13 @@ def run_billing(spec, rng, keys):
         steps[int(rng.integers(1, nper - 1))] = int(rng.integers(5, 25))
     elif off == "long":
         steps[int(rng.integers(1, nper - 1))] = int(rng.integers(36, 50))
+    if spec.get("boundary_periods") and not off and not spec.get("target_days") and nper > 4:
+        # periods of exactly 35 and exactly 25 days are valid billing periods (the limits are inclusive): nothing is dropped, nothing is warned
+        j35, j25 = rng.choice(np.arange(1, nper - 1), size=2, replace=False)
+        steps[j35], steps[j25] = 35, 25
+        if spec["boundary_periods"] == "two-long":
+            steps[j25] = 35
+        I.reach("billing.period_exactly_on_a_length_limit")
     if spec.get("target_days") and not off:
         # total span placed on a length threshold (329/330, 365/366): spread the difference over the interior periods, keep 25..35 days each
         diff = int(spec["target_days"]) - int(steps.sum())
@@ -568,6 +575,9 @@ def gen_cases(tier, seed):
         # ... and a span that begins in the middle of a calendar month (every supplied day is complete)
         cases.append(dict(kind="billing-interval", family="billing", role="baseline", tz=str((NO_DST + DST)[(i * 5) % 14]), start_month=1 + (i * 7) % 12, start_day=[15, 10, 20][i % 3],
                           n_months=12, k_months=0, k_iso=0, k_temp=0, gas=bool(i % 2), entry=["frame", "series"][i % 2], n=61000 + i))
+    for i in range(8 if q else 64):
+        cases.append(dict(kind="billing", family="billing", role="baseline", tz=str((NO_DST + DST)[(i * 3) % 14]), n_periods=[11, 10, 11, 10][i % 4], k_temp=0, how_temp="random", offcycle=None,
+                          entry=["frame", "series", "series-hourly"][i % 3], boundary_periods=["one-each", "two-long"][i % 2], extra_before=0, extra_after=2, n=45000 + i))
     for i in range(6 if q else 60):
         cases.append(dict(kind="billing", family="billing", role="baseline", tz=str(rng.choice(NO_DST + DST)), n_periods=12 if i % 5 < 3 else 11, k_temp=0, how_temp="random", offcycle=None,
                           entry="frame", target_days=[365, 366, 364, 330, 329][i % 5], n=40000 + i))
